@@ -129,7 +129,7 @@ rc::Gen<Case> gen_history(const FamSpec& spec) {
   auto sl = [] { return range(0, NS - 1); };
   std::vector<std::pair<int, rc::Gen<Op>>> w = {
       {6, op3("upd", sl(), range(0, 1 << 20), rc::gen::weightedOneOf<int64_t>({{3, range(1, 12)}, {3, range(13, mb)}}))},
-      {2, op3("new", sl(), range(0, 7), range(0, 1))},
+      {2, op3("new", sl(), range(0, 63), range(0, 1))},
       {3, op2("cpc", sl(), sl())},
       {3, op2("mvc", sl(), sl())},
       {4, op2("cpa", sl(), sl())},
@@ -207,6 +207,7 @@ int main(int argc, char** argv) {
   add_family<TupleCompactFamily>("tuple-compact", true, false, true, 0, 100);
   add_family<TupleUnionFamily>("tuple-union", false, true, false, 0, 150);
   add_family<TupleIntersectionFamily>("tuple-intersection", false, false, false, 0, 100);
+  add_family<TupleANotBFamily>("tuple-a-not-b", false, false, false, 0, 4);
   {
     HistoryHooks hs; hs.crash_key = [](const char* op, bool dm, bool self) { return hll_crash_key("hll-sketch", op, dm, self); };
     add_family<HllSketchFamily>("hll-sketch", false, true, true, 2, 400, hs);
